@@ -147,7 +147,7 @@ Dec(D, t) ==
 
 Read(t) ==
   /\ frames # <<>> /\ ~dead /\ nreads < MaxReads
-  /\ t \in Targets /\ t > pos
+  /\ t > pos                         \* t ranges over Targets (see Next)
   /\ IF nreads + 1 < MaxReads THEN TRUE ELSE t = Total(frames)
   /\ LET D0 == [cur |-> cur, plen |-> plen, ptype |-> ptype, closeRcvd |-> FALSE, stop |-> closeRcvd,
                 crash |-> "", pre |-> <<>>, msgs |-> <<>>]
